@@ -157,6 +157,7 @@ func runC26(c *Ctx) {
 	}
 	c.Floor(nil, "key families written by the block writer", len(written), 6)
 	merged := map[string]*ssa.Function{}
+	famBuilder := map[string]string{} // leveldb key family global -> redis key builder of the merge step
 	if parent := c.Need(R + "mergeTempDatabaseFromLeveldb"); parent != nil {
 		for _, step := range c.FuncsWithPrefix(R + "merge") {
 			if step == parent || step.Parent() != nil {
@@ -189,6 +190,9 @@ func runC26(c *Ctx) {
 					c.Unresolved(step, "family "+g+": copy callback", c.D(CallArg(in, 1)))
 				}
 				c.ArgIs(step, "family "+g+": iterated in full", []ssa.Instruction{in}, 1, 2, "true", "false")
+				// the step succeeds only after this family was copied (tail call counts)
+				c.MP(step, "family "+g+": the step succeeds only after the family was iterated", c.SuccessReturns(step), 1, GOk(c.D(in.(ssa.Value))))
+				famBuilder[g] = redisBuilderOf(c, CallArg(in, 1))
 			}
 			// step wired into the merge
 			n := 0
@@ -288,6 +292,62 @@ func runC26(c *Ctx) {
 			c.Report(rf, m.name+": both back-ends compare the query with the last values the same way", rf.Pos(), lc == rc, "leveldb: ["+lc+"]; redis: ["+rc+"]")
 		}
 	}
+	// both back-ends answer each read from the same key family: leveldb builder -> family -> the
+	// redis builder the merge copies that family under
+	lb2fam := map[string]string{}
+	for g, b := range written {
+		lb2fam[b] = g
+	}
+	for _, m := range []string{"SuffrageProof", "SuffrageProofBytes", "SuffrageProofByBlockHeight", "State", "StateBytes",
+		"ExistsInStateOperation", "ExistsKnownOperation", "BlockMap", "BlockMapBytes"} {
+		lf, rf := c.Need(L+m), c.Need(R+m)
+		if lf == nil || rf == nil {
+			continue
+		}
+		want := map[string]bool{}
+		unresolved := ""
+		for lb := range buildersUsed(c, lf, "leveldb", 1) {
+			fam, ok := lb2fam[lb]
+			if !ok || famBuilder[fam] == "" {
+				unresolved = lb
+				continue
+			}
+			want[famBuilder[fam]] = true
+		}
+		got := buildersUsed(c, rf, "redis", 1)
+		if unresolved != "" {
+			c.Unresolved(rf, m+": key family of leveldb builder "+unresolved, "no merge step copies it")
+			continue
+		}
+		ws, gs := strings.Join(sortedKeys(want), ","), strings.Join(sortedKeys(got), ",")
+		c.Report(rf, m+": both back-ends read the same key family", rf.Pos(), ws == gs && ws != "", "leveldb reads family copied under ["+ws+"]; redis reads ["+gs+"]")
+	}
+	// reload of the last values: newest member of the sorted set, bounds inclusive
+	if fn := c.Need(R + "loadLast"); fn != nil {
+		var zr []ssa.Instruction
+		for _, f := range WithClosures(fn) {
+			zr = append(zr, c.CallsTo(f, "(*storage/redis.Storage).ZRangeArgs")...)
+		}
+		if c.Exists(fn, "last-value reload scans the sorted set", zr, 1) {
+			fields := structLitFields(c, fn, CallArg(zr[0], 1))
+			for _, w := range [][2]string{
+				{"Key", "zkey"}, {"Start", "(\"[\" + begin)"}, {"Stop", "(\"[\" + end)"}, {"ByLex", "true"}, {"Rev", "true"}, {"Count", "1"},
+			} {
+				c.Report(fn, "last-value reload: "+w[0]+" = "+w[1]+" (newest member, both bounds inclusive)", c.InstrPos(zr[0]), fields[w[0]] == w[1], "got "+fields[w[0]])
+			}
+		}
+	}
+	for _, t := range []struct{ fn, z, b, e string }{
+		{"loadLastBlockMap", "isaacdatabase.redisZKeyBlockMaps", "isaacdatabase.redisZBeginBlockMaps", "isaacdatabase.redisZEndBlockMaps"},
+		{"loadLastSuffrageProof", "isaacdatabase.redisZKeySuffrageProofsByBlockHeight", "isaacdatabase.redisZBeginSuffrageProofsByBlockHeight", "isaacdatabase.redisZEndSuffrageProofsByBlockHeight"},
+	} {
+		if fn := c.Need(R + t.fn); fn != nil {
+			ll := c.CallsD(fn, "db.loadLast(*)")
+			c.ArgIs(fn, t.fn+": scans its own sorted set", ll, 1, 0, t.z)
+			c.ArgIs(fn, t.fn+": from the genesis member", ll, 1, 1, t.b)
+			c.ArgIs(fn, t.fn+": to the largest possible member", ll, 1, 2, t.e)
+		}
+	}
 	// by-block-height: newest record at or below the height, in both
 	if fn := c.Need(R + "SuffrageProofByBlockHeight"); fn != nil {
 		var zr []ssa.Instruction
@@ -306,6 +366,55 @@ func runC26(c *Ctx) {
 			}
 		}
 	}
+}
+
+// redisBuilderOf: the redis key builder called in the copy callback cb (a MakeClosure value).
+func redisBuilderOf(c *Ctx, cbv ssa.Value) string {
+	mc, ok := cbv.(*ssa.MakeClosure)
+	if !ok {
+		return ""
+	}
+	for _, in := range allInstrs(mc.Fn.(*ssa.Function)) {
+		if cc := callCommon(in); cc != nil {
+			if b := CalleeOf(cc); b != nil && strings.HasPrefix(b.Name(), "redis") && strings.HasSuffix(b.Name(), "Key") || (b != nil && b.Name() == "redisStateKeyFromLeveldb") {
+				if b.Name() == "redisStateKeyFromLeveldb" {
+					return "redisStateKey"
+				}
+				return b.Name()
+			}
+		}
+	}
+	return ""
+}
+
+// buildersUsed: key builders (name prefix) called by fn, its closures and, one level down, by the
+// helper methods of the same database types it calls.
+func buildersUsed(c *Ctx, fn *ssa.Function, prefix string, depth int) map[string]bool {
+	out := map[string]bool{}
+	for _, f := range WithClosures(fn) {
+		for _, in := range allInstrs(f) {
+			cc := callCommon(in)
+			if cc == nil {
+				continue
+			}
+			b := CalleeOf(cc)
+			if b == nil {
+				continue
+			}
+			if strings.HasPrefix(b.Name(), prefix) && strings.HasSuffix(b.Name(), "Key") && b.Signature.Recv() == nil {
+				out[b.Name()] = true
+				continue
+			}
+			n := CalleeFullName(cc)
+			if depth > 0 && b.Blocks != nil && (strings.HasPrefix(n, "(*isaac/database.RedisPermanent).") || strings.HasPrefix(n, "(*isaac/database.LeveldbPermanent).") || strings.HasPrefix(n, "(*isaac/database.baseLeveldb).")) &&
+				!strings.HasSuffix(n, ".st") && !strings.Contains(n, ").Last") {
+				for k := range buildersUsed(c, b, prefix, depth-1) {
+					out[k] = true
+				}
+			}
+		}
+	}
+	return out
 }
 
 // prefixGlobals: the leveldbKey*/leveldbKeyPrefix* globals a key builder references.
